@@ -349,11 +349,11 @@ def install_fold_contract() -> None:
 
     def nonzero_exit_is_bad(self: T.Any, OLD: T.Any) -> bool:
         _FOLD_COUNTS['contract:complete.nonzero-exit-is-bad'] = _FOLD_COUNTS.get('contract:complete.nonzero-exit-is-bad', 0) + 1
-        return OLD.rc == 0 or self.res.is_bad()
+        return OLD.rc == 0 or self.res.name in BAD_RESULT_VALUES
 
     def bad_stays_bad(self: T.Any, OLD: T.Any) -> bool:
         _FOLD_COUNTS['contract:complete.bad-stays-bad'] = _FOLD_COUNTS.get('contract:complete.bad-stays-bad', 0) + 1
-        return (not OLD.was_bad) or self.res.is_bad()
+        return (not OLD.was_bad) or self.res.name in BAD_RESULT_VALUES
 
     def result_is_final(self: T.Any) -> bool:
         _FOLD_COUNTS['contract:complete.result-is-final'] = _FOLD_COUNTS.get('contract:complete.result-is-final', 0) + 1
@@ -365,7 +365,7 @@ def install_fold_contract() -> None:
     f = icontract.ensure(bad_stays_bad, error=lambda self, OLD: FoldContract(f'bad-became-good:{self.res}'))(f)
     f = icontract.ensure(nonzero_exit_is_bad,
                          error=lambda self, OLD: FoldContract(f'nonzero-exit-not-bad:rc={OLD.rc} res={self.res}'))(f)
-    f = icontract.snapshot(lambda self: self.res.is_bad(), name='was_bad')(f)
+    f = icontract.snapshot(lambda self: self.res.name in BAD_RESULT_VALUES, name='was_bad')(f)
     f = icontract.snapshot(lambda self: self.returncode, name='rc')(f)
     MT.TestRunTAP.complete = f
     _FOLD_INSTALLED = True
@@ -426,8 +426,10 @@ def fold_real(lines: T.Sequence[str], rc: int) -> dict:
                 # the plain comparison in check_fold keeps judging every case
                 MT.TestRunTAP.complete = _FOLD_ORIGINAL
         out['res'] = run.res.name
-        out['bad'] = run.res.is_bad()
+        out['bad'] = run.res.name in BAD_RESULT_VALUES      # by name: independent of the real is_bad()
+        out['real_is_bad'] = run.res.is_bad()
         out['nresults'] = len(run.results)
+        out['results'] = [(reftap.nrepr(t.number), t.name[:60], t.result.name) for t in run.results[:60]]
         out['subtests_logged'] = h.subtests
     except Exception as e:
         out['raised'] = f'{type(e).__name__}: {e}'[:300]
@@ -467,12 +469,139 @@ def check_fold(acc: Acc, phase: str, lines: T.Sequence[str], rc: int, obs: T.Opt
 
 
 # =====================================================================================================
+# the harness-side line pipeline: bytes of the pipe -> read_decode -> queue -> queue_iter -> TestRunTAP.parse
+# =====================================================================================================
+_LOOP: T.Dict[int, T.Any] = {}
+LONG_LINE = 60000     # asyncio's default StreamReader limit is 64 KiB: longer lines reach the parser in chunks
+
+
+def _loop() -> T.Any:
+    import asyncio
+    lp = _LOOP.get(os.getpid())
+    if lp is None:
+        _LOOP.clear()
+        lp = _LOOP[os.getpid()] = asyncio.new_event_loop()
+    return lp
+
+
+def split_stdout(text: str) -> T.List[str]:
+    """the line stream of a program's stdout: split at '\n' only (never at \x0b, \x0c, \u2028 ...)"""
+    parts = text.split('\n')
+    lines = [p + '\n' for p in parts[:-1]]
+    if parts[-1]:
+        lines.append(parts[-1])
+    return lines
+
+
+def pipeline_real(data: bytes, rc: int) -> dict:
+    """Feed `data` to a real asyncio.StreamReader and let the real TestSubprocess.stdout_lines()/communicate()
+    (read_decode + queue_iter) hand the lines to the real TestRunTAP.parse, as SingleTestRunner._run_cmd does."""
+    import asyncio
+    import types
+    install_fold_contract()
+    run = MT.TestRun(_serialisation(), {}, 't', 30, True, False, False)
+    h = _Harness()
+    got: T.List[str] = []
+    out: dict = {'raised': None, 'contract': None, 'via': 'TestSubprocess'}
+
+    async def go() -> None:
+        reader = asyncio.StreamReader()
+        reader.feed_data(data)
+        reader.feed_eof()
+        try:
+            sp = MT.TestSubprocess(types.SimpleNamespace(stdout=reader, stderr=None, pid=0, returncode=0),
+                                   stdout=asyncio.subprocess.PIPE, stderr=None)
+            lines = sp.stdout_lines()
+            starter = lambda: sp.communicate(run, run.console_mode)[0]
+        except (TypeError, AttributeError):
+            out['via'] = 'read_decode+queue_iter'
+            q: T.Any = asyncio.Queue()
+            lines = MT.queue_iter(q)
+
+            async def rd() -> None:
+                run.stdo = await MT.read_decode(reader, q, run.console_mode)
+            starter = lambda: asyncio.ensure_future(rd())
+
+        async def tee() -> T.AsyncIterator[str]:
+            async for l in lines:
+                got.append(l)
+                yield l
+        parse_task = asyncio.ensure_future(run.parse(h, tee()))
+        stdo_task = starter()
+        await asyncio.wait_for(asyncio.gather(parse_task, stdo_task), timeout=20)
+
+    try:
+        run.start(['/bin/true'])
+        _loop().run_until_complete(go())
+        run.returncode = rc
+        try:
+            run.complete()
+        except FoldContract as e:
+            out['contract'] = str(e)
+        out['res'] = run.res.name
+        out['bad'] = run.res.name in BAD_RESULT_VALUES
+        out['nresults'] = len(run.results)
+        out['results'] = [(reftap.nrepr(t.number), t.name[:60], t.result.name) for t in run.results[:60]]
+        out['stdo_complete'] = run.stdo.replace('\r\n', '\n') == MT.decode(data).replace('\r\n', '\n') if hasattr(MT, 'decode') else None
+    except Exception as e:
+        out['raised'] = f'{type(e).__name__}: {e}'[:300]
+    out['delivered'] = got
+    return out
+
+
+def check_pipeline(acc: Acc, phase: str, text: str, rc: int) -> None:
+    """What the parser gets through the real reader/queue must lead to the same subtests and verdict as the
+    program's line stream handed to the same TestRunTAP directly."""
+    try:
+        data = text.encode('utf-8')
+    except UnicodeEncodeError:
+        return
+    lines = split_stdout(text)
+    direct = fold_real(lines, rc)
+    if direct['raised']:
+        return          # judged by the parser monitors
+    piped = pipeline_real(data, rc)
+    acc.count('monitor:pipeline-vs-direct')
+    longline = any(len(l) > LONG_LINE for l in lines)
+    w = {'phase': phase, 'stdout': text if len(text) <= 2000 else text[:1000] + f'<...{len(text) - 2000} chars...>' + text[-1000:],
+         'lines': clip_lines(lines), 'rc': rc, 'pipeline': {k: v for k, v in piped.items() if k != 'delivered'},
+         'direct': direct, 'replayable': len(text) <= 2000, 'pipeline_case': True}
+    if piped['raised']:
+        acc.finding('pipeline-raised:' + piped['raised'].split(':')[0], w)
+        return
+    same = piped['res'] == direct['res'] and piped['nresults'] == direct['nresults'] and \
+        (longline or piped['results'] == direct['results'])
+    if longline:
+        acc.count('observed:pipeline:long-line(verdict-and-count-only)')
+    if any(not l.strip('\r\n') for l in lines):
+        acc.count('observed:pipeline:stream-with-empty-line')
+    if same:
+        return
+    # why: what did the parser actually get?
+    want = [l.rstrip('\r\n') for l in lines]
+    have = [l.rstrip('\r\n') for l in piped['delivered']]
+    w['delivered_lines'] = len(have)
+    w['expected_lines'] = len(want)
+    if have == want:
+        mech = 'pipeline-verdict-differs-with-same-lines'
+    elif len(have) < len(want) and have == want[:len(have)]:
+        mech = 'pipeline-stops-at-empty-line' if want[len(have)] == '' else 'pipeline-stops-early'
+    elif longline:
+        mech = 'pipeline-long-line-chunks-change-verdict'
+    else:
+        mech = 'pipeline-alters-lines'
+    acc.finding(mech, w)
+
+
+# =====================================================================================================
 # workers
 # =====================================================================================================
 def work_exhaustive(item: T.Tuple[T.Any, ...]) -> dict:
     """All sequences alphabet^k (len(prefix) <= k <= depth) that start with `prefix` (only k == depth if only_full)."""
     alpha_name, depth, prefix, eol, deadline, do_fold = item[:6]
     only_full = len(item) > 6 and item[6]
+    do_pipe = eol != '' and not only_full
+    pipe_len = 3
     alpha = gen.CORE if alpha_name == 'core' else gen.EXTENDED
     acc = Acc()
     forms = [a + eol for a in alpha]
@@ -486,6 +615,8 @@ def work_exhaustive(item: T.Tuple[T.Any, ...]) -> dict:
             if do_fold and len(lines) <= 3:
                 for rc in (0, 1):
                     check_fold(acc, phase, lines, rc)
+            if do_pipe and len(lines) <= pipe_len:
+                check_pipeline(acc, phase, ''.join(lines), 0)
             n += 1
             if (n & 1023) == 0 and time.time() > deadline:
                 acc.complete = False
@@ -507,6 +638,9 @@ def work_random(item: T.Tuple[str, int, int, float]) -> dict:
         check_stream(acc, 'random:' + kind, lines, by_line=(i % 4 == 0))
         if i % 8 == 0:
             check_fold(acc, 'random:' + kind, lines, rng.choice(EXIT_CODES))
+        if i % 8 == 1:
+            text = ''.join(l if l.endswith('\n') else l + '\n' for l in lines[:-1]) + (lines[-1] if lines else '')
+            check_pipeline(acc, 'random:' + kind, text, rng.choice((0, 0, 1)))
         if (i & 63) == 0 and time.time() > deadline:
             acc.count('time-capped:' + kind)
             break
@@ -541,6 +675,37 @@ MESON_SAMPLE: T.List[T.Tuple[str, T.List[str]]] = [
 ]
 
 
+# raw stdout texts for the real pipeline: completely empty lines (\n and \r\n) followed by something significant,
+# white-space-only lines, missing final newline, lines longer than the 64 KiB reader limit (controls)
+MESON_RAW: T.List[T.Tuple[str, str]] = [
+    ('blank_then_fail', 'ok 1\n\nnot ok 2\n'),
+    ('blank_then_bailout', '1..1\nok 1\n\nBail out! database went away\n'),
+    ('blank_then_more_tests', '1..2\nok 1\n\nok 2\n'),
+    ('blank_then_late_plan_mismatch', 'ok 1\n\nok 2\n1..3\n'),
+    ('blank_then_late_plan_ok', 'ok 1\n\nok 2\n\n1..2\n'),
+    ('blank_then_todo_pass', 'ok 1\n\nok 2 # TODO done already\n'),
+    ('blank_first_line', '\n1..1\nok 1\n'),
+    ('blank_first_then_fail', '\n\nnot ok 1\n'),
+    ('blank_many', 'ok 1\n\n\n\nok 2\n\n1..2\n\n'),
+    ('blank_then_second_plan', '1..1\nok 1\n\n1..1\n'),
+    ('blank_then_misplaced_version', 'ok 1\n\nTAP version 13\n1..1\n'),
+    ('blank_in_yaml_v12_is_unknown', 'ok 1\n  ---\n\n  ...\nnot ok 2\n'),
+    ('blank_no_final_newline_fail', 'ok 1\n\nnot ok 2'),
+    ('crlf_clean', '1..2\r\nok 1\r\nok 2\r\n'),
+    ('crlf_blank_then_fail', 'ok 1\r\n\r\nnot ok 2\r\n'),
+    ('crlf_blank_then_more', '1..2\r\nok 1\r\n\r\nok 2\r\n'),
+    ('crlf_blank_then_bailout', 'ok 1\r\n\r\nBail out!\r\n'),
+    ('ws_only_then_fail', 'ok 1\n   \nnot ok 2\n'),
+    ('ws_only_tab_then_more', '1..2\nok 1\n \n\t\nok 2\n'),
+    ('ws_only_in_yaml', 'TAP version 13\nok 1\n  ---\n  a: b\n  \n  c: d\n  ...\nok 2\n1..2\n'),
+    ('no_final_newline_ok', '1..1\nok 1'),
+    ('long_name_then_fail', 'ok 1 ' + 'a' * 70000 + '\nnot ok 2\n'),
+    ('long_diag_then_ok', '# ' + 'x' * 150000 + '\n1..1\nok 1\n'),
+    ('long_unknown_then_blank_then_fail', 'y' * 66000 + '\nok 1\n\nnot ok 2\n'),
+    ('unicode_then_blank_then_ok', '1..2\nok 1 caf\u00e9 \u6e2c\u8a66\n\nok 2 \U0001f600\n'),
+]
+
+
 def meson_sample(chk: common.Check) -> None:
     """A dozen streams x 2 exit codes through a real `meson test` with protocol: 'tap'."""
     runner.preload()
@@ -555,14 +720,28 @@ def meson_sample(chk: common.Check) -> None:
         lines = [l.rstrip('\n') for l in gen.structured(rng, max_lines=25)]
         if lines and not reftap.consume(lines).ambiguous:
             sample.append((f'random{len(sample)}', lines))
-    files = {'emit.py': EMIT}
+    # a few random streams with empty lines sprinkled in (the generator itself rarely puts one before the interesting part)
+    tries = 0
+    nblank = 0
+    while nblank < 4 and tries < 400:
+        tries += 1
+        lines = [l.rstrip('\n') for l in gen.structured(rng, max_lines=20)]
+        if len(lines) < 3:
+            continue
+        for _ in range(rng.randrange(1, 3)):
+            lines.insert(rng.randrange(1, len(lines)), '')
+        if not reftap.consume(lines).ambiguous:
+            sample.append((f'randomblank{nblank}', lines))
+            nblank += 1
+    files: T.Dict[str, T.Union[str, bytes]] = {'emit.py': EMIT}
     mb = ["project('c18tap', meson_version: '>=1.0')", "py = find_program('/venv/bin/python')", "emit = files('emit.py')"]
     cases: T.Dict[str, T.Tuple[T.List[str], int]] = {}
-    for i, (nm, lines) in enumerate(sample):
-        files[f's{i:02d}.tap'] = ''.join(l + '\n' for l in lines)
+    texts: T.List[T.Tuple[str, str]] = [(nm, ''.join(l + '\n' for l in lines)) for nm, lines in sample] + MESON_RAW
+    for i, (nm, text) in enumerate(texts):
+        files[f's{i:02d}.tap'] = text.encode('utf-8')
         for rc in (0, 3 if i % 2 else 1):
             tn = f's{i:02d}_{nm}_rc{rc}'
-            cases[tn] = (lines, rc)
+            cases[tn] = (split_stdout(text), rc)
             mb.append(f"test('{tn}', py, args: [emit, files('s{i:02d}.tap'), '{rc}'], protocol: 'tap')")
     files['meson.build'] = '\n'.join(mb) + '\n'
     runner.write_tree(src, files)
@@ -589,11 +768,16 @@ def meson_sample(chk: common.Check) -> None:
     for tn, (lines, rc) in sorted(cases.items()):
         j = results.get(tn)
         if j is None:
-            chk.violation('meson-test-result-missing', {'phase': 'meson-test', 'test': tn, 'lines': lines, 'rc': rc})
+            chk.violation('meson-test-result-missing', {'phase': 'meson-test', 'test': tn, 'lines': clip_lines(lines), 'rc': rc})
             continue
         chk.count('monitor:meson-test-verdict')
+        if any(not l.strip('\r\n') for l in lines[:-1]):
+            chk.count('observed:meson-test:stream-with-empty-line-before-more')
         chk.case('meson:' + tn)
-        ref = reftap.consume([l + '\n' for l in lines])
+        ref = reftap.consume(lines)
+        if ref.ambiguous:
+            chk.count('meson-test-sample-ambiguous')
+            continue
         expect_bad = ref.expect_bad(rc)
         got_bad = j['result'] in BAD_RESULT_VALUES
         any_bad = any_bad or got_bad
@@ -603,11 +787,17 @@ def meson_sample(chk: common.Check) -> None:
             mech = 'meson-test-verdict:' + ('bad-run-reported-' if expect_bad else 'good-run-reported-') + j['result']
             # a parser defect that is already classified explains the verdict: report it under that mechanism
             acc = Acc()
-            fs = check_stream(acc, 'meson-test', [l + '\n' for l in lines])
+            fs = check_stream(acc, 'meson-test', lines)
             mechs = {m for m, _ in fs}
             if rc == 0 and len(mechs) == 1 and expect_bad:
                 mech = mechs.pop()
-            chk.violation(mech, {'phase': 'meson-test', 'test': tn, 'lines': lines, 'rc': rc, 'reported': j['result'],
+            else:
+                # does the harness-side pipeline (reader -> queue -> parser) explain it?
+                check_pipeline(acc, 'meson-test', ''.join(lines), rc)
+                pm = sorted(m for m in acc.found if m.startswith('pipeline-'))
+                if pm:
+                    mech += '(' + pm[0] + ')'
+            chk.violation(mech, {'phase': 'meson-test', 'test': tn, 'lines': clip_lines(lines), 'rc': rc, 'reported': j['result'],
                                  'expected_bad': expect_bad, 'reference': ref.summary()})
     # the exit status of `meson test` itself: 1 iff something bad was reported
     chk.count('monitor:meson-test-exit-status')
@@ -712,10 +902,12 @@ def replay(chk: common.Check, path: str) -> int:
     fs = check_stream(acc, 'replay', lines, by_line=True)
     if 'rc' in w:
         check_fold(acc, 'replay', lines, w['rc'])
+        check_pipeline(acc, 'replay', w.get('stdout') or ''.join(l if l.endswith('\n') else l + '\n' for l in lines), w['rc'])
     mechs = sorted({m for m, _ in fs} | set(acc.found))
+    mech = mech.split('(')[-1].rstrip(')') if mech.startswith('meson-test-verdict') and '(' in mech else mech
     print(f'[C18] replay {path}: recorded mechanism={mech}; now observed: {mechs or "nothing"}')
     for m, ws in acc.found.items():
-        print(f'  {m}: ' + json.dumps(ws[0].get('detail', ws[0].get('fold')), default=repr)[:400])
+        print(f'  {m}: ' + json.dumps(ws[0].get('detail') or ws[0].get('pipeline') or ws[0].get('fold'), default=repr)[:400])
     still = mech in mechs or (mech == '?' and bool(mechs))
     print('[C18] replay: ' + ('STILL FAILS' if still else 'no longer fails'))
     return 1 if still else 0
@@ -828,7 +1020,9 @@ def main() -> int:
         chk.sample({'stream': [l.rstrip('\n') for l in s], 'reference_errors': sorted(reftap.consume(s).errors)})
 
     for m, n in (('monitor:never-raises', 1000), ('monitor:differential-vs-reftap', 1000), ('monitor:state-and-counters', 1000),
-                 ('monitor:parse_line-contract', 100), ('monitor:verdict-fold', 100), ('monitor:meson-test-verdict', 10),
+                 ('monitor:parse_line-contract', 100), ('monitor:verdict-fold', 100), ('monitor:meson-test-verdict', 40),
+                 ('monitor:pipeline-vs-direct', 1000), ('observed:pipeline:stream-with-empty-line', 100),
+                 ('observed:meson-test:stream-with-empty-line-before-more', 20),
                  ('contract:complete.nonzero-exit-is-bad', 100), ('pinned-streams', len(PINNED)),
                  ('probe:' + KNOWN_COMPENSATING, 1), ('probe:' + KNOWN_DIGITS, 1), ('probe:' + KNOWN_BELOW_ONE, 1)):
         chk.require(m, n)
